@@ -14,7 +14,7 @@ RULE = ("seeded usim.py programs of 2-4 generator processes (plus sub-processes)
         "two, so equal times occur only along causal chains. Non-trivial = the program contains "
         "an interrupt, a condition, a failure or an until; distinct = distinct per-process "
         "(event, time, value) history.")
-BUDGET = {"quick": {"cases": 100000, "wall_s": 100, "chunk": 200},
+BUDGET = {"quick": {"cases": 100000, "wall_s": 240, "chunk": 200},
           "thorough": {"cases": 1000000, "wall_s": 1500, "chunk": 500}}
 ASSUMPTIONS = ["only per-process histories are compared, never the order of different "
                "processes within one time step",
